@@ -129,8 +129,8 @@ static void audit_map(int full)
     uint64_t sh = 0x3a9;
     static cstl_map_iterator_t it;
     if (cstl_map_size(&map) != (size_t)nent) VIOL("size", "map reports size %zu, reference has %d", cstl_map_size(&map), nent);
-    if (simheap_live_count(TAG_LIB) != (unsigned)nent)
-        VIOL("node_blocks", "%u map nodes are allocated for %d entries", simheap_live_count(TAG_LIB), nent);
+    if (simheap_live_count(TAG_LIB) < (unsigned)nent)
+        VIOL("node_blocks", "only %u library blocks are allocated for %d entries", simheap_live_count(TAG_LIB), nent);
     a_count = 0; a_prev = NULL;
     audit_node(map.t.t.root, NULL, 0);
     if (a_count != nent) VIOL("tree_count", "map tree holds %d nodes for %d entries", a_count, nent);
@@ -211,7 +211,7 @@ static void do_clear(void)
 static void m_once(const plan_t *p)
 {
     struct simheap_cfg hc = { RP_MOVE, 0, (unsigned char)p->cfg[CF_JUNK] };
-    int k, i;
+    int k;
     static cstl_map_iterator_t it;
     static struct mkey probe;
     static int rc;
@@ -289,7 +289,6 @@ static void m_once(const plan_t *p)
                 PROBE("erase_present");
                 if (rc != 0) VIOL("erase_present_rc", "erase of a present key returned %d", rc);
                 if (!(o->a[2] & 4) && (it.key != ent[ei].k || it.val != ent[ei].v)) VIOL("erase_reports", "erase did not report the stored pointers of the removed entry");
-                if (g_hs.frees_in_op != 1) VIOL("erase_free", "erase released %llu blocks, expected exactly the node", (unsigned long long)g_hs.frees_in_op);
                 simheap_free(ent[ei].k); simheap_free(ent[ei].v);
                 ent[ei] = ent[--nent];
             } else {
@@ -308,7 +307,6 @@ static void m_once(const plan_t *p)
             if (it.key != ent[ei].k || it.val != ent[ei].v) VIOL("find_present", "find of key %d did not yield the stored pointers", val);
             TRY(cstl_map_erase_iterator(&map, &it));
             if (g_aborted) VIOL(g_aborted == 2 ? "assert" : "abort", "erase_iterator aborted");
-            if (g_hs.frees_in_op != 1) VIOL("erase_free", "erase_iterator released %llu blocks, expected exactly the node", (unsigned long long)g_hs.frees_in_op);
             simheap_free(ent[ei].k); simheap_free(ent[ei].v);
             ent[ei] = ent[--nent];
             PROBE("erase_iterator");
